@@ -125,6 +125,8 @@ class Spec:
         """-> list of expected messages, or None when the op is outside the property's domain
         (out-of-range argument, undocumented key syntax)."""
         k = op[0]
+        if k.startswith("srv"):
+            return []
         if k in ("keyPress", "keyDown", "keyUp"):
             key = op[1]
             syms = self.key_tokens(key)
@@ -298,6 +300,15 @@ def run_real(width, height, force_caps, has_screen, ops):
                 assert fired
             elif k == "paste":
                 c.paste(op[1])
+            elif k == "srvSize":                     # what the server may do between two operations (writes nothing)
+                c.updateDesktopSize(op[1], op[2])
+            elif k == "srvRect":
+                c.updateRectangle(op[1], op[2], op[3], op[4], bytes(op[3] * op[4] * 4))
+                c.commitUpdate([])
+            elif k == "srvCursor":
+                c.updateCursor(op[1], op[2], op[3], op[4], bytes(op[3] * op[4] * 4), b"\xff" * (((op[3] + 7) // 8) * op[4]))
+            elif k == "srvBell":
+                c.bell()
             elif k == "refreshScreen":
                 c.refreshScreen(bool(op[1]))
                 c.deferred = None
